@@ -235,6 +235,55 @@ func buildPlans(thorough bool) []plan {
 		}})
 	}
 
+	// 3b. bursts: frames written back to back, then a frame that makes the server close: everything
+	// the read loop queued before it began closing must arrive before the close frame (drain-then-close)
+	nBurst := 300
+	if thorough {
+		nBurst = 3000
+	}
+	for i := 0; i < nBurst; i++ {
+		plans = append(plans, plan{mode: "det", make: func(r *rng.R) Script {
+			p := rng.Pick(r, protos)
+			st := startType(p)
+			ls := []Label{{Kind: lMsg, Type: "init", Pay: "none", Variant: r.Intn(1 << 16)}}
+			var burst []Label
+			n := r.Range(5, 40)
+			for len(burst) < n {
+				var l Label
+				switch x := r.Intn(100); {
+				case x < 45:
+					l = msg(st, rng.Pick(r, []int{1, 2, 3, 0}), "doc", "query")
+					l.Big = r.Chance(1, 2)
+				case x < 55:
+					l = msg(st, rng.Pick(r, []int{1, 2, 3}), "doc", "mutation")
+				case x < 70:
+					l = msg(st, rng.Pick(r, []int{1, 2, 3}), "doc", "invalid")
+				case x < 85:
+					l = msg("ping", 0, "none", "")
+				case x < 92:
+					l = msg("pong", 0, "none", "")
+				default:
+					l = msg(stopType(p), rng.Pick(r, []int{1, 2, 3}), "none", "")
+				}
+				l.Variant = r.Intn(1 << 16)
+				if l.Big {
+					l.Variant = 0
+				}
+				burst = append(burst, l)
+			}
+			var closer Label
+			if p == protoWS {
+				closer = msg("terminate", 0, "none", "")
+			} else if r.Bool() {
+				closer = Label{Kind: lMalformed, Variant: r.Intn(1 << 16)}
+			} else {
+				closer = msg("other", 0, "none", "")
+				closer.Variant = r.Intn(1 << 16)
+			}
+			return Script{Proto: p, Labels: ls, Burst: burst, Closer: &closer, End: "client-close", Barrier: true}
+		}})
+	}
+
 	// 4. a client that never reads (defect #31): the write deadline is 5 s, thorough tier only
 	if thorough {
 		for _, p := range protos {
